@@ -79,7 +79,7 @@ def shrink(case):
 
 MANIFEST = {
     "text": "Model: every file-system mutation of the I/O loop appends the resulting directory to a trace; reopening is NewDiskQueue on any trace entry. "
-            "Theorems (Props/C08.v): for EVERY history of puts, gets and sync ticks (any maxBytesPerFile, any syncEvery, messages < 2^31 bytes: roll-over, "
+            "Theorems (Props/C08.v): for EVERY history of puts, gets, sync ticks and clean restarts (any maxBytesPerFile, any syncEvery, messages < 2^31 bytes: roll-over, "
             "over-sized messages, removal of consumed segments), every crash point (after each segment write, fsync, metadata temp write, metadata rename, "
             "segment removal) is reopened without panic and drains to a contiguous run E[sr..sw) of the enqueued messages, intact and in order, with sr not "
             "beyond what was handed to the consumer (C08_crash_at_any_point_all_segments; run invariant carrying an image for every recorded directory: "
@@ -88,7 +88,6 @@ MANIFEST = {
             "metadata round trip with stale .tmp bytes; frame round trip. "
             "Tie: crash-point hook in the real queue, every distinct directory state restored and drained by a real queue; recover_ok evaluated on "
             "the real drains, then compared with the model's directory and drain.",
-    "note": "The theorem's histories have no clean restart inside them (Close/reopen sequences are C09's theorem; crash points of histories that contain "
-            "a restart are covered by the differential run). Crash model: process death with completed syscalls durable. What a recovered queue does with "
+    "note": "Crash model: process death with completed syscalls durable. What a recovered queue does with "
             "new puts after an unsynced tail was left behind is outside this property (noted in DESIGN.md). Trusted: Coq kernel+VM, OS file semantics.",
 }
